@@ -969,6 +969,8 @@ class NativeVC:
         def wrapper(*a, **k):
             return fn(vc, *a, **k)
 
+        wrapper.__name__ = parts[-1]
+        wrapper.__qualname__ = qual
         self._patches.append((owner, parts[-1], orig, parts[-1] in owner.__dict__))
         setattr(owner, parts[-1], staticmethod(wrapper) if is_static else wrapper)
         if not isinstance(owner, type):
